@@ -25,7 +25,8 @@ EXPLANATION = (
     ' Also: the encoder is lossless and the stored bound is the untransformed pc.min/pc.max; (R7) appends cannot re-number field ids (C11.R1).'
     ' R1/R2 decide by abstract interpretation of the CFG of one loop iteration over the order-type domain (guard clauses and flag variables are followed), not by the syntactic shape of the branch.'
     " (R8) the read path keeps no schema memo (C02.R6); (R9) who may produce bounds: every DataFile's bounds come from _compute_column_bounds, the manifest decoder or a copy."
-    ' R4 also requires the encoding to be unaltered between producer and manifest (no second codec, function-value codec passing followed); R9 is strict: one bounds producer.')
+    ' R4 also requires the encoding to be unaltered between producer and manifest (no second codec, function-value codec passing followed); R9 is strict: one bounds producer.'
+    " (R10) membership compares like equality (C12.R18) [D20, fixed]; (R11) the row filter's NULL semantics the pruning rules assume (C12.R3). R5 accepts pc.min_max(col)['min'|'max'] with the matching field.")
 NOT_DECIDED = ("pc.min/max and Arrow comparison semantics (e.g. int64 beyond 2^53 against a float literal); end-to-end "
                "pruned-vs-unpruned equality at run time")
 ASSUMPTIONS = ["values of one column are totally ordered except float NaN; pc.min/pc.max ignore NULL and NaN rows"]
@@ -874,3 +875,9 @@ def check(ctx: Ctx) -> None:
     # ... and only if the name -> id mapping used for the lookup is the current one: the read path keeps no memo
     from .c02 import r6 as c02_r6
     ctx.shared(c02_r6, "C02.R6", "C13.R8", "a remembered schema looks bounds up under another column's id")
+    # pruning compares the LITERAL with the bounds: the row filter must compare the same way, or the answer depends on pruning
+    from .c12 import membership_compares_like_equality
+    membership_compares_like_equality(ctx, "C13.R10")
+    # the pruning rules (R1 / R2) were derived for the row filter's NULL semantics: NULL never matches a comparison
+    from .c12 import r3 as c12_r3
+    ctx.shared(c12_r3, "C12.R3", "C13.R11", "the pruning rules assume the row filter's NULL semantics")
